@@ -370,7 +370,7 @@ impl Family for C14Family {
         let seed = simcore::prng::mix(batch_seed, self.name(), index);
         let mut r = Prng::new(seed);
         let r = &mut r;
-        let mut p = C14Plan { psk_on: false, obfs: false, method: 0, path: 0, hv: [0; 5], psk: 0, psk_kind: 0, frags: vec![], frag_delay_ms: 0, net: common::NetPlan::default(), try_tunnel: true, backend: 0 };
+        let mut p = C14Plan { psk_on: false, obfs: false, method: 0, path: 0, hv: [0; 5], psk: 0, psk_kind: 0, frags: vec![], frag_delay_ms: 0, net: common::NetPlan::default(), try_tunnel: true, backend: 0, http10: false };
         if self.enumerate {
             let sets = c14_deviation_sets();
             let k = index % (24 * sets.len() as u64);
@@ -399,6 +399,7 @@ impl Family for C14Family {
             p.psk_kind = r.below(2) as u8;
             p.backend = r.below(3) as u8;
         }
+        p.http10 = r.chance(1, 10);
         // fragmentation: split points anywhere, including inside a header name, with virtual delays
         p.frags = match r.below(5) {
             0 => vec![],
